@@ -12,7 +12,7 @@ from __future__ import annotations
 import ast
 
 from ..dataflow import cone, get_defuse
-from ..frontend import const_value, src, walk_no_nested
+from ..frontend import canon_text, const_value, src, walk_no_nested
 from . import dimrun
 from .dim import ZERO, fmt
 
@@ -165,7 +165,7 @@ def check_divisions(P, R, roots, modules, rule="GUARD.div"):
             if masked_by_where(P, f, du, node):
                 R.ok(rule, fk, what, "count denominator; G3: quotient only used as the non-selected arm of np.where on the same test", node.lineno)
             else:
-                R.violation(rule, fk, what, f"division by a per-component/per-cluster count ({detail}) that is neither floored (np.clip / np.where / np.maximum / + positive scalar) nor masked: a component or cluster that receives no data gives 0/0 = NaN parameters", node.lineno)
+                R.violation(rule, fk, what, f"division by a per-component/per-cluster count ({detail}) that is neither floored (np.clip / np.where / np.maximum / + positive scalar) nor masked: a component or cluster that receives no data gives 0/0 = NaN parameters", node.lineno, canon=canon_text(f, node))
         else:
             R.ok(rule, fk, what, f"denominator class: {cls} ({detail})", node.lineno, nontrivial=cls in ("floored",))
     return n_sites
